@@ -38,6 +38,12 @@ def gp_expander(prog, scalar_mean=True):
             return M.atom("m", 1)
         if f == "self.mean.mean_and_gradients":
             return TupleV([M.atom("m", 1), ListV([M.atom("dm", 1)])])
+        # predictions are made with the hyper-parameters the factorisation was built with: a kernel / mean evaluated with anything
+        # else is another function (an atom of its own, which no closed form contains)
+        if f in ("self.cov", "self.cov.gradient_terms") and len(node.args) == 3 and U(node.args[2]) != "self.cov_hyperpars":
+            return M.atom(f"K<{U(node.args[0])},{U(node.args[1])};{U(node.args[2])}>", 2)
+        if f in ("self.mean", "self.mean.gradient") and len(node.args) == 2 and U(node.args[1]) != "self.mean_hyperpars":
+            return M.atom(f"m<{U(node.args[0])};{U(node.args[1])}>", 1)
         if f == "self.cov" and len(node.args) == 3:
             a, b = U(node.args[0]), U(node.args[1])
             if b == "self.x":
@@ -58,7 +64,13 @@ def gp_expander(prog, scalar_mean=True):
             return M.atom("mq", 0 if scalar_mean else 1)
         if f == "array" and node.args and isinstance(node.args[0], ast.ListComp) \
                 and U(node.args[0].elt).startswith("self.mean("):
-            return M.atom("mq", 1)
+            lc = node.args[0]
+            g = lc.generators[0]
+            good = (len(lc.generators) == 1 and not g.ifs and isinstance(g.target, ast.Name) and isinstance(lc.elt, ast.Call)
+                    and [U(a) for a in lc.elt.args] == [g.target.id, "self.mean_hyperpars"] and not lc.elt.keywords
+                    and (not state['q'] or U(g.iter) == state['q'][-1]))
+            # the prior mean at every query point, with the stored mean hyper-parameters; anything else is another vector
+            return M.atom("mq", 1) if good else M.atom(f"m<{U(lc)[:60]}>", 1)
         if f == "self.process_points":
             return M.atom("P", 2)
         if f == "self.cov.gradient_terms":
